@@ -161,10 +161,11 @@ where
                                 }
                             }
 
-                            // Step 2: Share work.
-                            if pending.len() > 1 && thread_count > 1 {
-                                job_broker.split_and_push(&mut pending);
-                            }
+                            // Step 2: Share work. This is also where a worker learns that the
+                            // market was closed (e.g. by the timeout): its pending jobs are then
+                            // discarded and the next `pop` tells it to shut down. It must therefore
+                            // happen for every thread count and queue length.
+                            job_broker.split_and_push(&mut pending);
                         }
                     })
                     .expect("Failed to spawn a thread"),
